@@ -3,6 +3,7 @@ package rt
 import (
 	"fmt"
 	"iter"
+	"reflect"
 	"sort"
 	"time"
 	"unsafe"
@@ -320,6 +321,28 @@ func MapOrderName(o int) string {
 		n += fmt.Sprintf(" rotated by %d", o>>1)
 	}
 	return n
+}
+
+// ChanLen is len(ch): the number of messages buffered in the scheduler's model of the channel (natively: len).
+func ChanLen(ch any) int {
+	v := reflect.ValueOf(ch)
+	if !active.Load() {
+		return v.Len()
+	}
+	return call(request{kind: opChanLen, obj: v.UnsafePointer(), n: v.Cap()}).idx
+}
+
+// After is time.After under virtual time: a thread sleeps d and then delivers one value.
+func After(d time.Duration) <-chan time.Time {
+	if !active.Load() {
+		return time.After(d)
+	}
+	ch := make(chan time.Time, 1)
+	Go("time.After", func() {
+		Sleep(d)
+		Send(ch, time.Time{})
+	})
+	return ch
 }
 
 // RangeChan is `for v := range ch`: receives through the scheduler until the channel is closed and drained.
